@@ -16,7 +16,7 @@ RULE = ("geometries in general position (harness-side guard: no distance within 
         "tetrahedral / square-planar / trigonal-bipyramidal / octahedral / planar-bond templates (distinct and partly identical "
         "ligands), the same templates among 16-18 far-away spectator atoms with the identifiers scattered by every affine index map "
         "i -> a+b*i mod 23 (quick: 8 multipliers), the repository's XYZ files, RDKit-embedded organics; x ALL atom permutations (<=7 atoms; transpositions, shifts, "
-        "reversal above) x rigid-motion grid (24 cube rotations o seed-derived generic rotation + translation) x {proper, three "
+        "reversal above) x rigid-motion grid (24 cube rotations o seed-derived generic rotation + translation, also by 1e8 A) x {proper, three "
         "reflections} x noise {0, 0.02, 0.05 A}; reaction triples with reactant / product / TS moved independently.  Differential "
         "oracle: graph(pi.R.x) renamed by pi^-1 has the same bonds and spatially identical descriptors (mirror descriptors under a "
         "reflection); every descriptor names the centre and exactly its bonded neighbours; 288 atoms (48 haloethenes) under six "
@@ -49,6 +49,18 @@ def sources(tier):
         bigels += list(elsZ if c % 2 == 0 else elsE)
         bigxyz.append(np.array(xyzZ if c % 2 == 0 else xyzE, dtype=float) + shift)
     S["L:haloethene-x48"] = (bigels, np.vstack(bigxyz))
+    # strained alkenes twisted by 15 / 18 degrees with unequal substituents: seen from one end the six atoms are within the
+    # planarity tolerance (largest out-of-plane distance 0.66 A), seen from the other end they are not (1.5 A) - neither value is
+    # near the 1.0 A threshold.  The harness guard (which wants every 4-subset on one side) does not apply to these two sources;
+    # what is asked is only what the property says: the same graph for every atom order and motion.
+    def twisted(el_a, d_a, el_b, d_b, twist, cc=1.34):
+        t = np.radians(twist)
+        c60, s60 = np.cos(np.radians(60)), np.sin(np.radians(60))
+        sa = [np.array([-d_a * c60, sg * d_a * s60, 0.0]) for sg in (1, -1)]
+        sb = [np.array([cc + d_b * c60, sg * d_b * s60 * np.cos(t), sg * d_b * s60 * np.sin(t)]) for sg in (1, -1)]
+        return ["C", "C", el_a, el_a, el_b, el_b], np.array([[0, 0, 0], [cc, 0, 0], *sa, *sb], dtype=float)
+    S["W:twisted15-H2C=CI2"] = twisted("H", 1.09, "I", 2.14, 15.0)
+    S["W:twisted18-H2C=CBr2"] = twisted("H", 1.09, "Br", 1.95, 18.0)
     for k, v in G.repo_xyz().items():
         S["F:" + k] = v
     for k, v in G.embedded((1,) if tier == "quick" else (1, 2, 3)).items():
@@ -158,6 +170,9 @@ def motions(tier, seed, few):
     M = [("generic", Q, t, False), ("generic+refl-x", G.REFLECTIONS[0] @ Q, t, True)]
     if few:
         return M
+    # a translation by 1e8 A (float64 still resolves 1.5e-8 A there: the shape is unchanged to far below every margin)
+    M.append(("far", Q, np.array([1.0e8, -7.0e7, 3.0e7]) + t, False))
+    M.append(("far+refl", G.REFLECTIONS[1] @ Q, np.array([-9.0e7, 1.0e8, 5.0e7]) - t, True))
     for i, C in enumerate(G.cube_rotations()):
         M.append((f"cube{i}", C @ Q, t, False))
     for j, F in enumerate(G.REFLECTIONS):
@@ -183,11 +198,13 @@ def run_item(item):
     n = len(els)
     xyz = xyz0 + G.noise(n, item["sigma"], seed)
     ok, why = G.general_position(els, xyz)
+    if item["src"].startswith("W:"):
+        ok = True          # see sources(): deliberately beyond the guard, well away from the threshold from either end
     if not ok:
         oc["skipped-not-general-position"] = 1
         out["extra"] = {"skipped_geometries": 1}
         return out
-    fam = item["src"].split(":")[0] + (":" + item["src"].split(":")[1].split("-")[0] if item["src"].startswith(("T:", "S:")) else "")
+    fam = item["src"].split(":")[0] + (":" + item["src"].split(":")[1].split("-")[0] if item["src"].startswith(("T:", "S:", "W:")) else "")
 
     def V(clause, what, detail=None, inp=""):
         out["viol"].append({"sig": f"C07/{fam}/{clause}", "input": f"{item['src']}|s={item['sigma']}|{inp}",
